@@ -298,9 +298,16 @@ def uncertainty_tokenizer(input_string: str) -> Generator[TokenInfo, None, None]
             )
             std_dev = next(toklist)
             if "." not in std_dev.string:
+                # the digits in parentheses are an uncertainty in the last digits
+                # of the nominal value: 2.00(3) is 2.00 +/- 0.03, 12.3(45) is 12.3 +/- 4.5
+                mantissa = nominal_value.string.lower().partition("e")[0]
+                decimals = len(mantissa.partition(".")[2])
+                digits = std_dev.string.rjust(decimals + 1, "0")
+                if decimals:
+                    digits = digits[:-decimals] + "." + digits[-decimals:]
                 std_dev = tokenize.TokenInfo(
                     type=std_dev.type,
-                    string="0." + std_dev.string,
+                    string=digits,
                     start=std_dev.start,
                     end=std_dev.end,
                     line=line,
